@@ -13,7 +13,7 @@ PAYLOAD_SIZES = [8, 0, 37, 65535, 1, 1024]
 class Profile:
     """Concretisation of the abstract alphabet: header layout, payload sizes, type ids, fault offsets."""
 
-    def __init__(self, seed: int = 0):
+    def __init__(self, seed: int = 0, log_level: Optional[int] = None):
         r = random.Random(seed)
         self.seed = seed
         self.timecode = bool(seed % 2)
@@ -26,6 +26,9 @@ class Profile:
         self.fin_partial = r.choice([0, 0, 1, 20, 47, 48, 49])
         self.timing = True
         self.chunk = r.choice([None, 1000, 100, 4096, 1000, 7])
+        self.log_level = r.choice([100, 100, 20, 100, 10])   # the manager's own logging: off / INFO / DEBUG
+        if log_level is not None:
+            self.log_level = log_level
         self.space = r.choice([None, 60, 2000, 100])      # send-buffer room seen by NON-blocking sends only
 
     def mt(self, t: int) -> int:
@@ -33,7 +36,7 @@ class Profile:
 
     def to_json(self):
         return {"seed": self.seed, "timecode": self.timecode, "sizes": self.sizes, "type_map": self.type_map,
-                "die_mode": self.die_mode, "fin_partial": self.fin_partial, "chunk": self.chunk, "space": self.space}
+                "die_mode": self.die_mode, "fin_partial": self.fin_partial, "chunk": self.chunk, "space": self.space, "log_level": self.log_level}
 
 
 def concretise(f: Dict[str, Any], prof: Profile) -> Dict[str, Any]:
@@ -48,9 +51,14 @@ def concretise(f: Dict[str, Any], prof: Profile) -> Dict[str, Any]:
     return g
 
 
-def replay(beh: List[dict], prof: Optional[Profile] = None, log_level: int = 100) -> Hub:
+def replay(beh: List[dict], prof: Optional[Profile] = None, log_level: Optional[int] = None) -> Hub:
     prof = prof or Profile(0)
-    h = Hub(timecode=prof.timecode, timing=prof.timing, log_level=log_level, salt=prof.salt, chunk=prof.chunk, space=prof.space)
+    if log_level is None and prof.log_level < 100 and any(e["a"] in ("Die", "Rst") for e in beh):
+        # log messages about a failure are themselves delivered to subscribers of the log types; a dead peer would then be
+        # discovered while a LOG message is forwarded, which the specification (no logging) cannot follow: logging is only
+        # switched on for behaviours without write-side faults (DESIGN 2.9)
+        log_level = 100
+    h = Hub(timecode=prof.timecode, timing=prof.timing, log_level=prof.log_level if log_level is None else log_level, salt=prof.salt, chunk=prof.chunk, space=prof.space)
     try:
         for e in beh:
             if not h.alive():
